@@ -1578,6 +1578,8 @@ def _post_order(m, root, rtl=False):
         if rtl:
             ch = list(reversed(ch))
         idx = [go(x) for x in ch]
+        if rtl:
+            idx.reverse()        # RtlPostOrderIter::next reports the child indices in left-to-right child order
         items.append(Adt("iter::tree::PostOrderIterItem", "PostOrderIterItem",
                          {"node": node, "index": len(items), "child_indices": PyVec(idx)}))
         return len(items) - 1
